@@ -73,7 +73,7 @@ def map_case_st(draw, thick=False):
         "orient": draw(orient_st),
         "window": {"given": draw(st.integers(0, 9)) > 0,
                    "cls": draw(st.sampled_from(["<0.1", "0.1-1", "0.1-1", "1-10", "1-10", ">10", "pixel~cell", "pixel~cell", "pixel~cell"])),
-                   "frac": draw(st.floats(0, 1)), "dy": draw(st.sampled_from([None, None, 0.5, 2.0])),
+                   "frac": draw(st.floats(0, 1)), "dy": draw(st.sampled_from([None, None, 0.5, 2.0, 3.0])),
                    "unit": draw(st.sampled_from(meshes.LEN_UNITS)),
                    # dy may be given in another unit than dx
                    "dy_unit": draw(st.sampled_from([None, None] + meshes.LEN_UNITS))},
@@ -107,7 +107,7 @@ def map_case_st(draw, thick=False):
         case["dz"] = {"cls": draw(st.sampled_from(["cells", "domain", "thin", "cell", "cells", "thin", "pixel"])),
                       "frac": draw(st.floats(0, 1)), "unit": draw(st.sampled_from(meshes.LEN_UNITS))}
         case["op"] = draw(st.sampled_from(["nansum", "mean", "nanmean", "sum", "min", "nanmax", "max", "nanmin"]))
-        case["resz"] = draw(st.sampled_from([None, None, 1, 2, 3, 5, 8]))
+        case["resz"] = draw(st.sampled_from([None, None, 1, 2, 3, 5, 8, 31, 31, 62]))     # (31, 62: dz/nz is rarely exact)
         # where the reduction is chosen: at the call, or on every Layer with another reduction named at the call
         case["op_at"] = draw(st.sampled_from(["call", "call", "layer"]))
         if case["resz"] is not None and case["resz"] <= 3 and draw(st.integers(0, 9)) == 0:
